@@ -20,7 +20,7 @@ import (
 type Res struct {
 	Ok  bool  `json:"ok"`
 	V   int64 `json:"v,omitempty"`   // value id (unique per case)
-	Exp int64 `json:"exp,omitempty"` // expiry instant, ms relative to the start of the harness (ExpirableCache)
+	Exp int64 `json:"exp,omitempty"` // expiry instant, seconds relative to the start of the harness (ExpirableCache)
 }
 
 type Op struct {
@@ -47,6 +47,7 @@ func z(v int64) string {
 	}
 	return strconv.FormatInt(v, 10)
 }
+
 // wire format of run/Run_C08.v: flat integer lists (see the comment there)
 func nums(vs ...int64) string {
 	var sb strings.Builder
@@ -131,7 +132,7 @@ type expCache struct {
 	c *lru.ExpirableCache[int64, item]
 }
 
-func itemExp(i item) int64 { return i.ExpiresAt.Sub(t0).Milliseconds() }
+func itemExp(i item) int64 { return int64(i.ExpiresAt.Sub(t0) / time.Second) }
 
 func (p expCache) get(pk int64) (string, bool) {
 	v, err := p.c.GetOrCreate(pk)
@@ -187,7 +188,7 @@ func build(c Case, rec *recorder) cache {
 				if !r.Ok {
 					return item{Value: -1}, errCreate
 				}
-				return lru.NewCacheItem(r.V, t0.Add(time.Duration(r.Exp)*time.Millisecond)), nil
+				return lru.NewCacheItem(r.V, t0.Add(time.Duration(r.Exp)*time.Second)), nil
 			},
 			func(pk int64, v item) { rec.events = append(rec.events, nums(6, pk, v.Value, itemExp(v))) })
 		if err != nil {
@@ -225,9 +226,10 @@ func runCase(c Case, s *hx.Sink) string {
 				}
 			case "E":
 				rec.script = []*Res{o.R1, o.R2}
-				// the instant ExpirableCache reads lies after this reading; the expiry instants of the
-				// items are at least half an hour away from it
-				now := time.Since(t0).Milliseconds()
+				// instants are sent in whole seconds since the start of the harness; the instant
+				// ExpirableCache reads lies shortly after this reading, and the expiry instants of the
+				// items are at least half an hour away from both, so the rounding cannot matter
+				now := int64(time.Since(t0) / time.Second)
 				op = nums(4, o.PK, now, resV(o.R1), resE(o.R1), resV(o.R2), resE(o.R2))
 				if v, ok := impl.get(o.PK); ok {
 					res = v
@@ -330,9 +332,9 @@ func main() {
 		alpha = append(alpha, sym{"G", k, true}, sym{"G", k, false}, sym{"R", k, false})
 	}
 	alpha = append(alpha, sym{"C", 0, false})
-	dEx, dSamp, sampleOf := 4, 6, 89
+	dEx, dSamp, sampleOf := 4, 6, 131
 	if thorough {
-		dEx, dSamp, sampleOf = 5, 7, 41
+		dEx, dSamp, sampleOf = 5, 7, 23
 	}
 	toOps := func(seq []sym) []Op {
 		next := int64(0)
@@ -416,7 +418,7 @@ func main() {
 			x := &Res{Ok: true, V: next}
 			if expirable {
 				// +-(30..90) minutes around the start of the harness
-				off := int64(r.Range(30*60*1000, 90*60*1000))
+				off := int64(r.Range(30*60, 90*60))
 				if r.Chance(2, 5) {
 					off = -off
 				}
